@@ -372,3 +372,215 @@ class Reach:
 
 def deep_snapshot(*objs):
     return [copy.deepcopy(getattr(o, "data", o)) for o in objs]
+
+
+# ------------------------------------------------- armed class-level monitors
+
+_PM_NAMES = ["self", "dt", "state", "covariance", "control"]
+
+
+def _bind(names, a, kw):
+    b = dict(zip(names, a))
+    b.update(kw)
+    return b
+
+
+class Armed:
+    """Subscribes contract monitors to the hub for the duration of one unit.
+
+    Violations and counters go to `result` (checks.common.Result).  Contexts
+    are attached to filter instances when they are constructed from a symbolic
+    model carrying the harness annotation (`_vf_defn`)."""
+
+    def __init__(self, result, *, process=True, sensor=True, purity=True):
+        self.R = result
+        HUB.clear_subscribers()
+        HUB.on("EKF.__init__", post=self._ctor)
+        if process:
+            HUB.on("EKF.process_model", pre=self._pm_pre, post=self._pm_post)
+        if sensor:
+            HUB.on("EKF.sensor_model", pre=self._sm_pre, post=self._sm_post)
+        self.purity = purity
+        self.depth = 0
+
+    def disarm(self):
+        HUB.clear_subscribers()
+
+    # constructor: remember what the user supplied
+    def _ctor(self, a, kw, res, exc, tokens):
+        if exc is not None:
+            return
+        try:
+            ctx = ctx_from_ctor(a, kw)
+        except Exception:  # noqa: BLE001
+            ctx = None
+        if ctx is not None:
+            a[0]._vf_ctx = ctx
+            self.R.stats.inc("filters_constructed_with_context")
+
+    # ---- prediction
+    def _pm_pre(self, a, kw):
+        b = _bind(_PM_NAMES, a, kw)
+        snap = None
+        if self.purity:
+            snap = (b["state"].data.copy(), b["covariance"].data.copy(),
+                    None if b.get("control") is None else b["control"].data.copy())
+        return snap
+
+    def _pm_post(self, a, kw, res, exc, tokens):
+        b = _bind(_PM_NAMES, a, kw)
+        ekf = b["self"]
+        ctx = getattr(ekf, "_vf_ctx", None)
+        self.R.stats.inc("process_model_calls_observed")
+        if exc is not None:
+            self.R.stats.inc("process_model_calls_raised")
+            return
+        if ctx is None:
+            self.R.stats.inc("process_model_calls_without_context")
+            return
+        ctrl = b.get("control")
+        if ctrl is None:
+            ctrl = ekf.Control()
+        try:
+            vs = contract_process_model(ctx, ekf, float(b["dt"]), b["state"], b["covariance"], ctrl,
+                                        res, self.R.stats)
+        except Exception as e:  # noqa: BLE001  (oracle trouble: never a verdict)
+            self.R.stats.inc("oracle_errors")
+            self.R.inconclusive += 1
+            self.R.stats.counters.setdefault("oracle_error_text", 0)
+            self.last_oracle_error = repr(e)
+            return
+        self.R.evals += 1
+        for v in vs:
+            v["witness"].update(defn=ctx.defn, dt=float(b["dt"]), state=vec_dict(b["state"]),
+                                control=vec_dict(ctrl), covariance=b["covariance"].data.tolist(),
+                                process_noise=ctx.process_noise)
+        self.R.add(vs)
+        snap = tokens[0] if tokens else None
+        if snap is not None:
+            same = (np.array_equal(snap[0], b["state"].data) and np.array_equal(snap[1], b["covariance"].data)
+                    and (snap[2] is None or np.array_equal(snap[2], b["control"].data)))
+            self.R.stats.inc("purity_checks")
+            if not same:
+                self.R.add([V("process_model:mutates-input", "process_model modified its state/covariance/control argument",
+                              defn=ctx.defn)])
+            if res.state.data is b["state"].data or res.covariance.data is b["covariance"].data:
+                self.R.add([V("process_model:aliases-input", "process_model result shares storage with its input",
+                              defn=ctx.defn)])
+
+    # ---- update (filled by C05's contract, see contract_sensor_model)
+    def _sm_pre(self, a, kw):
+        b = _bind(["self", "state", "covariance"], a, kw)
+        return (b["state"].data.copy(), b["covariance"].data.copy(), b["sensor_reading"].data.copy())
+
+    def _sm_post(self, a, kw, res, exc, tokens):
+        b = _bind(["self", "state", "covariance"], a, kw)
+        ekf = b["self"]
+        ctx = getattr(ekf, "_vf_ctx", None)
+        self.R.stats.inc("sensor_model_calls_observed")
+        if exc is not None:
+            self.R.stats.inc("sensor_model_calls_raised")
+            return
+        if ctx is None:
+            self.R.stats.inc("sensor_model_calls_without_context")
+            return
+        try:
+            vs = contract_sensor_model(ctx, ekf, b["state"], b["covariance"], b["sensor_key"],
+                                       b["sensor_reading"], res, self.R.stats)
+        except Exception as e:  # noqa: BLE001
+            self.R.stats.inc("oracle_errors")
+            self.R.inconclusive += 1
+            self.last_oracle_error = repr(e)
+            return
+        self.R.evals += 1
+        for v in vs:
+            v["witness"].update(defn=ctx.defn, sensor=b["sensor_key"], state=vec_dict(b["state"]),
+                                covariance=b["covariance"].data.tolist(),
+                                reading=vec_dict(b["sensor_reading"]), sensor_noises=ctx.sensor_noises,
+                                innovation_filtering=repr(ctx.k))
+        self.R.add(vs)
+        snap = tokens[0] if tokens else None
+        if snap is not None:
+            self.R.stats.inc("purity_checks")
+            if not (np.array_equal(snap[0], b["state"].data) and np.array_equal(snap[1], b["covariance"].data)
+                    and np.array_equal(snap[2], b["sensor_reading"].data)):
+                self.R.add([V("sensor_model:mutates-input", "sensor_model modified its state/covariance/reading argument",
+                              defn=ctx.defn)])
+
+
+def contract_sensor_model(ctx, ekf, state, covariance, sname, reading, result, stats):
+    """Kalman correction against the numpy reference; rejected readings must
+    leave the estimate untouched.  Whether a reading counts as rejected is
+    decided by the exact rule with a guard band (C06 owns the boundary)."""
+    out = []
+    readings = [str(r) for r in ekf.sensor_models[sname].readings]
+    sd = vec_dict(state)
+    x = np.array([[sd[s]] for s in ctx.state])
+    P = cov_matrix(covariance, ctx.state)
+    hx, shx, H, SH = sensor_refs(ctx, sname, sd, readings)
+    if not (np.all(np.isfinite(H)) and np.all(np.isfinite(hx))):
+        stats.inc("unusable_reference")
+        return out
+    zd = vec_dict(reading)
+    z = np.array([[zd[r]] for r in readings])
+    Q = ctx.Q(sname, readings)
+    ref = O.update_ref(x, P, H, SH, Q, z, hx, shx)
+    if not np.isfinite(ref["cond"]) or ref["cond"] > 1e6:
+        stats.inc("ill_conditioned_S_skipped")
+        return out
+    m = len(readings)
+    # recorded innovation and innovation covariance
+    rec_y = ekf.innovations.get(sname)
+    rec_S = ekf.sensor_prediction_uncertainty.get(sname)
+    if rec_y is None or rec_S is None:
+        out.append(V("sensor_model:innovation-not-recorded", f"innovation / S not recorded for {sname}"))
+    else:
+        ysc = np.abs(z) + shx.reshape(-1, 1)
+        out += check_matrix(np.asarray(rec_y).reshape(m, 1), ref["y"], ysc, "sensor_model:innovation",
+                            f"recorded innovation[{sname}]", stats, readings, ["y"], tag="innovation")
+        out += check_matrix(np.asarray(rec_S), ref["S"], ref["scale_S"], "sensor_model:S",
+                            f"recorded innovation covariance[{sname}]", stats, readings, readings, tag="S")
+    # was it rejected?
+    Sinv = np.linalg.inv(ref["S"])
+    nis = float((ref["y"].T @ Sinv @ ref["y"])[0, 0])
+    k = ctx.k
+    rejected_ref = None
+    if k is None:
+        rejected_ref = False
+    elif isinstance(k, (int, float)) and k > 0:
+        thr = O.threshold_fl(k, m)
+        band = 1e-6 * max(1.0, thr) * max(1.0, ref["cond"])
+        if nis > thr + band:
+            rejected_ref = True
+        elif nis < thr - band:
+            rejected_ref = False
+    got_x = np.array([[vec_dict(result.state)[s]] for s in ctx.state])
+    got_P = cov_matrix(result.covariance, ctx.state)
+    unchanged = np.array_equal(got_x, x) and np.array_equal(got_P, P)
+    if rejected_ref is None:
+        stats.inc("sensor_updates_in_guard_band")
+        return out
+    if rejected_ref:
+        stats.inc("sensor_updates_rejected")
+        if not unchanged:
+            out.append(V("sensor_model:rejected-but-changed",
+                         f"reading with NIS {nis:.6g} > threshold was not discarded unchanged (k={k}, m={m})"))
+        return out
+    stats.inc("sensor_updates_accepted")
+    out += check_matrix(got_x, ref["x"], ref["scale_x"], "sensor_model:state", f"sensor_model[{sname}] state",
+                        stats, ctx.state, ["x"], tag="sm_state")
+    out += check_matrix(got_P, ref["P"], ref["scale_P"], "sensor_model:covariance",
+                        f"sensor_model[{sname}] covariance", stats, ctx.state, ctx.state, tag="sm_cov")
+    # consequences: symmetry and P_prior - P_post >= 0
+    sP = max(1.0, float(np.max(np.abs(P), initial=0.0)))
+    asym = float(np.max(np.abs(got_P - got_P.T), initial=0.0))
+    stats.mx("posterior_asymmetry_rel", asym / sP)
+    if asym > 1e-7 * sP * max(1.0, ref["cond"]):
+        out.append(V("sensor_model:posterior-asymmetric", f"posterior covariance asymmetric by {asym:.3g}"))
+    D = P - (got_P + got_P.T) / 2
+    lam = float(np.min(np.linalg.eigvalsh((D + D.T) / 2))) if D.size else 0.0
+    stats.mx("prior_minus_posterior_min_eig_neg_rel", max(0.0, -lam) / sP)
+    if lam < -1e-7 * sP * max(1.0, ref["cond"]):
+        out.append(V("sensor_model:posterior-exceeds-prior", f"P_prior - P_post has eigenvalue {lam:.3g}"))
+    stats.inc("sensor_model_contract_evaluated")
+    return out
